@@ -9,10 +9,19 @@
 #ifndef VERIF_NO_PCF
 typedef unsigned long PcfFlags_stub;
 #endif
+enum class E_Scope : unsigned int { ALL, PREPROC };   // as in src/chunk.h
+static const int ANY_LEVEL = -1;
 class Chunk                              //@struct
 {
 public:
    static Chunk *const NullChunkPtr;
+   // constructor of a regular chunk: as Chunk::Chunk(false) + Reset() of src/chunk.cpp for the scalar members kept here
+   Chunk() : m_nullChunk(false)
+   {
+      m_type = CT_NONE; m_parentType = CT_NONE; m_origLine = 0; m_origCol = 0; m_origColEnd = 0; m_origPrevSp = 0; m_column = 0;
+      m_columnIndent = 0; m_nlCount = 0; m_nlColumn = 0; m_level = 0; m_braceLevel = 0; m_ppLevel = 999; m_afterTab = false; m_flags = 0;
+      m_next = 0; m_prev = 0; m_parent = 0;
+   }
    bool IsNullChunk() const { return(m_nullChunk); }      // as in src/chunk.h (defined in-class there)
    bool IsNotNullChunk() const { return(!m_nullChunk); }  // as in src/chunk.h
    E_Token GetType() const;
@@ -21,7 +30,9 @@ public:
    void SetParentType(const E_Token token);
    bool Is(E_Token token) const;
    bool IsNot(E_Token token) const;
-   const UncText &GetStr() const;
+   // src/chunk.h: `return(m_str);` -- CBMC's C++ front end mis-types a const reference to a class as non-const
+   // ("invalid implicit conversion from const struct UncText to struct UncText &"), hence the cast
+   const UncText &GetStr() const { return(*(UncText *)&m_str); }
    UncText &Str();
    size_t Len() const;
    const char *Text() const { return ""; }
@@ -37,8 +48,27 @@ public:
    void SetNlColumn(size_t col);
    bool GetAfterTab() const;
    void SetAfterTab(bool afterTab);
-   Chunk *GetNext() const;
-   Chunk *GetPrev() const;
+   Chunk *GetNext(const E_Scope scope = E_Scope::ALL) const;
+   Chunk *GetPrev(const E_Scope scope = E_Scope::ALL) const;
+   Chunk *GetNextNc(const E_Scope scope = E_Scope::ALL) const;
+   Chunk *GetNextNcNnl(const E_Scope scope = E_Scope::ALL) const;
+   Chunk *GetPrevNcNnl(const E_Scope scope = E_Scope::ALL) const;
+   Chunk *GetPrevType(const E_Token type, int level = ANY_LEVEL, E_Scope scope = E_Scope::ALL) const;
+   Chunk *GetOpeningParen(E_Scope scope = E_Scope::ALL) const;
+   bool IsString(const char *str, bool caseSensitive = true) const;
+   bool IsComment() const;
+   bool IsParenOpen() const;
+   bool IsParenClose() const;
+   bool TestFlags(unsigned long flags) const;
+   size_t GetLevel() const;
+   size_t GetPpLevel() const;
+   void SetPpLevel(size_t level);
+   void SetOrigLine(size_t line);
+   void SetOrigCol(size_t col);
+   Chunk *CopyAndAddBefore(Chunk *pos) const;
+   static Chunk *GetHead();
+   static Chunk *GetTail();
+   static void Delete(Chunk * &pc);
    E_Token         m_type;               //@f unsigned int
    E_Token         m_parentType;         //@f unsigned int
    size_t          m_origLine;           //@f
